@@ -30,7 +30,8 @@ CLAIMED['C08'] = dict(
          'line events of dispatcher.py/modulebase.py; each connection\'s line stream is judged against the ground-truth '
          'history of the parameter cache (snapshot completeness and currency, last message = cache at quiescence, '
          'no cache state skipped while a parameter stays in scope, nothing after the scope-ending reply, no cross-talk, '
-         'nothing left in the dispatcher of a connection whose handler has finished).',
+         'nothing left in the dispatcher of a connection whose handler has finished; a run which cannot end because '
+         'a request is never answered is a violation).',
     note='Trusted: simulation kernel, simulated TCP, the cache history taken from parameter callbacks (invoked by '
          'frappy inside the update lock). Two in-flight races of broadcast_event are known findings (known_findings.json).',
     design='6/C08')
@@ -54,7 +55,8 @@ CLAIMED['C07'] = dict(
     level='exploration',
     text='Seeded search over grammar-generated and byte-mutated request streams, explicit cut positions plus network '
          'segmentation/latency and receive time-outs inside lines, with a second (activated/logging) connection, '
-         'further connections which activate and leave again while the requests are handled, and '
+         'further connections which activate and leave again while the requests are handled, optionally a peer which '
+         'asks for events and never reads, and '
          'poll threads writing concurrently; real TCPRequestHandler + Dispatcher. Checked: one reply line per request '
          'line in order, reply action/error_<action> with known error class, specifier echo, UTF-8 + strict JSON on '
          'every line, whole lines under concurrent senders, handler alive, no leak to the other connection, answers '
@@ -66,7 +68,8 @@ CLAIMED['C07'] = dict(
 
 CLAIMED['C04'] = dict(
     level='exploration',
-    text='Seeded search over generated module classes (all datatypes, readonly/constant/export flags, limit '
+    text='Seeded search over generated module classes (all datatypes, readonly/constant/export flags - read-only also with '
+         'a write method for internal use or by configuration -, limit '
          'parameters, check hooks, commands) and change/do request sequences from 1..3 concurrent wire clients with '
          'payloads from the boundary catalogue of the described datainfo (incl. NaN/Infinity), while limits are moved '
          '(by wire requests and, in part of the runs, by a driver-side thread through the write methods of the limit '
@@ -86,7 +89,8 @@ CLAIMED['C11'] = dict(
     level='exploration',
     text='Seeded search over 2..4 caller threads x request mixes (equal/distinct keys, unknown actions, unique id per '
          'request) against a scripted SECoP peer (reply order and delay up to beyond the time-out, error replies, '
-         'updates, streamed updates of an active node, unsolicited replies, garbage, half lines) with peer '
+         'updates, streamed updates of an active node, unsolicited replies, garbage, half lines, replies written in two '
+         'pieces with a pause) with peer '
          'close/reset/black hole, refused reconnects '
          'and user disconnect at arbitrary points, pre-empting the real SecopClient/AsynTcp threads at lock '
          'operations and line events of client/__init__.py. Checked per caller: own reply or error, no duplicate '
@@ -166,7 +170,7 @@ CLAIMED['C19'] = dict(
          'simulated network first (ports held by another listener for a while or for ever, real bind retries of '
          'TCPServer), and every announced port must be one the node really accepts connections on and answers '
          '*IDN? on - at the moment the datagram leaves, also while discovery requests keep arriving during the shutdown '
-         'of the node (log of when each listening port is open).',
+         'of the node (log of when each listening port is open), and after a restart of the node.',
     note='Trusted: simulated UDP socket, simulated socketserver base class, constant firmware version. The budgeting clause is a pure function of the '
          'strings; it is checked as a rider of the simulated runs.',
     design='6/C19')
@@ -259,7 +263,7 @@ CLAIMED['C06'] = dict(
     level='exploration',
     text='Seeded search over nodes built from generated module classes (all datatypes, readonly/constant/export flags, '
          'commands, unexported modules, constants of every datatype declared in the class or given in the configuration '
-         '(also non-finite), the export of single parameters given in the configuration) and from the shipped hardware-free configurations '
+         '(also non-finite), the export of single parameters given in the configuration, limits learnt in startModule) and from the shipped hardware-free configurations '
          '(demo, sim, cryo, test, sim_mlz_htf02, sim_mlz_cci3he1, ls370sim; their threads, sleeps and random numbers run '
          'behind the seams), probed by a describing client over the wire while poll threads and a second client run '
          'and the driver now and then assigns a reading the datatype refuses: '
